@@ -1,7 +1,7 @@
 (* Model of transforms/doc_transforms.py and doc_cleanups.py on the AST of Model/Ast.v.
    transform_tree visits a node, and descends only into the listed container kinds:
-   Document, Quote (and its subclass Alert), List, ListItem, Paragraph, Heading (not
-   SetextHeading), Emphasis, StrongEmphasis, Link, FootnoteDef, Table/Row/Cell, Strikethrough.
+   Document, Quote (and its subclass Alert), List, ListItem, Paragraph, Heading,
+   SetextHeading, Emphasis, StrongEmphasis, Link, FootnoteDef, Table/Row/Cell, Strikethrough.
    Definitions only. *)
 From Coq Require Import List NArith ZArith Bool Arith.
 Import ListNotations.
@@ -43,8 +43,7 @@ Definition co_inls (l : list inl) : list inl := coalesce_list (map co_inl l).
 Definition co_leaf (l : leaf) : leaf :=
   match l with
   | LPara ch c => LPara ch (co_inls c)
-  | LHeading false lv c => LHeading false lv (co_inls c)
-  | LHeading true lv c => LHeading true lv (coalesce_list c)   (* SetextHeading: visited, not a container *)
+  | LHeading sx lv c => LHeading sx lv (co_inls c)      (* Heading and SetextHeading alike *)
   | LTable d rows => LTable d (map (map co_inls) rows)
   | x => x
   end.
@@ -76,7 +75,7 @@ Section Content.
   Definition rc_leaf (l : leaf) : M leaf :=
     match l with
     | LPara ch c => c' <- rc_inls c ;; ret (LPara ch c')
-    | LHeading false lv c => c' <- rc_inls c ;; ret (LHeading false lv c')
+    | LHeading sx lv c => c' <- rc_inls c ;; ret (LHeading sx lv c')
     | LTable d rows => rows' <- mapM (mapM rc_inls) rows ;; ret (LTable d rows')
     | x => ret x
     end.
@@ -150,7 +149,7 @@ Section Across.
   Definition across_leaf (l : leaf) : M leaf :=
     match l with
     | LPara ch c => c' <- across_scope c ;; ret (LPara ch c')
-    | LHeading false lv c => c' <- across_scope c ;; ret (LHeading false lv c')
+    | LHeading sx lv c => c' <- across_scope c ;; ret (LHeading sx lv c')
     | LTable d rows => rows' <- mapM (mapM across_scope) rows ;; ret (LTable d rows')
     | x => ret x
     end.
@@ -162,8 +161,8 @@ Definition rewrite_text_across_inlines (f : str -> M str) (bs : list blk) : M (l
 (* ---- doc_cleanups: unbold headings ---- *)
 Definition unbold_leaf (l : leaf) : leaf :=
   match l with
-  | LHeading false lv [INode KStrong cs] => LHeading false lv cs
-  | LHeading false lv [INode KEmph [INode KStrong cs]] => LHeading false lv [INode KEmph cs]
+  | LHeading sx lv [INode KStrong cs] => LHeading sx lv cs
+  | LHeading sx lv [INode KEmph [INode KStrong cs]] => LHeading sx lv [INode KEmph cs]
   | x => x
   end.
 Definition doc_cleanups (bs : list blk) : list blk := map (map_blk unbold_leaf) bs.
